@@ -10,6 +10,7 @@ import (
 	"bytes"
 	"context"
 	"fmt"
+	"io"
 	"math/rand"
 	"os"
 	"os/exec"
@@ -71,7 +72,11 @@ func killChild() {
 		os.Exit(5)
 	}
 	ctx := context.Background()
-	for i := 0; i < 400; i++ {
+	maxOps := 400
+	if n, err := strconv.Atoi(os.Getenv("C03_MAXOPS")); err == nil && n > 0 {
+		maxOps = n
+	}
+	for i := 0; i < maxOps; i++ {
 		b := rng.Intn(len(w.Uni))
 		recv := rng.Intn(100) < 65
 		if recv {
@@ -196,15 +201,15 @@ func packSizes(dir string) map[string]int64 {
 	return m
 }
 
-func hasTempFiles(dir string) bool {
-	found := false
+func countTempFiles(dir string) int {
+	n := 0
 	filepath.Walk(dir, func(p string, fi os.FileInfo, err error) error {
 		if err == nil && !fi.IsDir() && strings.Contains(fi.Name(), ".dat.tmp") {
-			found = true
+			n++
 		}
 		return nil
 	})
-	return found
+	return n
 }
 
 var materialisedKinds = map[string]bool{"none": true, "torn-header": true, "torn-body": true, "full-noindex": true, "full-indexed": true,
@@ -249,6 +254,10 @@ func killRuns(r *ev.Run, kind, scratch string, kills int) {
 		}
 		jpath := filepath.Join(scratch, fmt.Sprintf("journal-%s-%d", kind, round))
 		sizes := packSizes(dir)
+		tmpBefore := 0
+		if !packed {
+			tmpBefore = countTempFiles(dir)
+		}
 		cmd := exec.Command(exe)
 		cmd.Env = append(os.Environ(), "VERIF_CHILD=c03kill", "VERIF_WORKER=", "C03_STORE="+kind, "C03_DIR="+dir, "C03_JOURNAL="+jpath,
 			fmt.Sprintf("C03_WSEED=%d", wseed), fmt.Sprintf("C03_OSEED=%d", oseed))
@@ -352,6 +361,9 @@ func killRuns(r *ev.Run, kind, scratch string, kills int) {
 			label := "localdisk"
 			if packed {
 				label = "diskpacked"
+				if idxKind == "kv" {
+					label = kind // the kv index acknowledges before its rows leave process memory: its own site
+				}
 				// refine the state kind from what the store says about the in-flight blob
 				if j.inflight != nil {
 					present := false
@@ -372,7 +384,17 @@ func killRuns(r *ev.Run, kind, scratch string, kills int) {
 								liveHeader = true
 							}
 						}
+						intact := false
+						if present {
+							if rc, _, err := s.Fetch(context.Background(), x.Ref); err == nil {
+								data, _ := io.ReadAll(rc)
+								rc.Close()
+								intact = bytes.Equal(data, x.Data)
+							}
+						}
 						switch {
+						case present && !intact:
+							o.info.Kind = "remove-header-zeroed" // body gone, row still there
 						case liveHeader && present:
 							o.info.Kind = "remove-none"
 						case present:
@@ -388,13 +410,18 @@ func killRuns(r *ev.Run, kind, scratch string, kills int) {
 					}
 				}
 			} else if j.inflight != nil {
-				if hasTempFiles(dir) {
+				if n := countTempFiles(dir); n > tmpBefore {
 					o.info.Kind += "-tmp-left"
 				}
 			}
 			r.Note("real_state_kinds", kind+"/"+o.info.Kind)
 			if packed && !materialisedKinds[o.info.Kind] {
-				r.Note("real_states_not_materialised", o.info.Kind)
+				r.Note("real_states_not_materialised", kind+"/"+o.info.Kind)
+				r.Count("real_states_outside_materialiser_"+idxKind, 1)
+			}
+			if packed && idxKind == "kv" {
+				o.info.Detail += "; pack/index state: " + o.info.Kind
+				o.info.Kind = "real-kill"
 			}
 			ck := o.checker(s, label)
 			ck.Audit(o.rng, false)
